@@ -12,6 +12,7 @@ from ..gen import repo_patterns as rp
 from ..oracles import schemas as S
 from ..oracles import tb
 
+READY = True
 LEVEL = 'exploration'
 TECHNIQUE = ('runtime post-condition monitoring of every public lemma method of Propositional and Tautology (wrapped at class level, so nested internal '
              'calls are checked too) against a hand-transcribed schema table; each generated call is additionally replayed on a recording '
